@@ -79,3 +79,86 @@ Theorem C14_parse_total_example :
   parse ex_opts ([49; 48; 58] ++ repeat 49 30) = OutOverflow.
 Proof. exact parse_total_example. Qed.
 Print Assumptions C14_parse_total_example.
+
+(* tz.tzlocal can fail (parse/Local.v: `dt - self._dst_saved` in tzlocal.is_ambiguous overflows next to
+   datetime.min / datetime.max); the model with that failure, parse_lz, only adds OverflowError outcomes *)
+From V Require Import parse.ZoneThm parse.Local parse.LocalThm.
+
+Theorem C14_parse_lz_total : forall o lz s,
+  wf_tzinfos (o_tzinfos o) = true -> 50 <= o_cur_year o ->
+  match parse_lz o lz s with OutEscape e => e = ValueErrorNoStr | _ => True end.
+Proof. exact parse_lz_total_lemma. Qed.
+Print Assumptions C14_parse_lz_total.
+
+Theorem C14_parse_lz_only_adds_overflow : forall o lz s,
+  parse_lz o lz s = parse o s \/ parse_lz o lz s = OutOverflow.
+Proof. exact parse_lz_cases. Qed.
+Print Assumptions C14_parse_lz_only_adds_overflow.
+
+Theorem C14_parse_lz_nodst : forall o lz s, lz_dst_saved lz = 0 -> parse_lz o lz s = parse o s.
+Proof. exact parse_lz_nodst. Qed.
+Print Assumptions C14_parse_lz_nodst.
+
+(* ------------------------------------------------------------------------------------------------
+   Model <-> source (iso builder, notes/parse_gen.md).  coq/gen/ParseGen.v is regenerated from
+   /repo/src/dateutil/parser/_parser.py by the fail-closed translator harness/gen_parse.py on every run; each
+   translated function equals the corresponding function of the hand model for all inputs (parse/ParseGenThm*.v;
+   statements in parse/ParseGenProps.v).  The untranslated parts of _parser.py are pinned by AST hash in the translator:
+   any edit of them, or a translated function whose meaning changes, makes these theorems fail. *)
+From V Require Import parse.ParseGenLib gen.ParseGen parse.ParseGenThm parse.ParseGenThm2 parse.ParseGenProps.
+
+Theorem C14_gen_parserinfo_lookups : gen_parserinfo_lookups_stmt.
+Proof. exact gen_parserinfo_lookups. Qed.
+Print Assumptions C14_gen_parserinfo_lookups.
+
+Theorem C14_gen_convertyear : gen_convertyear_stmt.
+Proof. exact pg_convertyear_eq. Qed.
+Print Assumptions C14_gen_convertyear.
+
+Theorem C14_gen_validate : gen_validate_stmt.
+Proof. exact pg_validate_eq. Qed.
+Print Assumptions C14_gen_validate.
+
+Theorem C14_gen_could_be_day : gen_could_be_day_stmt.
+Proof. exact pg_could_be_day_eq. Qed.
+Print Assumptions C14_gen_could_be_day.
+
+Theorem C14_gen_resolve_ymd : gen_resolve_ymd_stmt.
+Proof. exact pg_resolve_ymd_eq. Qed.
+Print Assumptions C14_gen_resolve_ymd.
+
+Theorem C14_gen_append : gen_append_stmt.
+Proof. exact gen_append. Qed.
+Print Assumptions C14_gen_append.
+
+Theorem C14_gen_ampm : gen_ampm_stmt.
+Proof. exact gen_ampm. Qed.
+Print Assumptions C14_gen_ampm.
+
+Theorem C14_gen_could_be_tzname : gen_could_be_tzname_stmt.
+Proof. exact pg_could_be_tzname_eq. Qed.
+Print Assumptions C14_gen_could_be_tzname.
+
+Theorem C14_gen_parse_min_sec : gen_parse_min_sec_stmt.
+Proof. exact pg_parse_min_sec_eq. Qed.
+Print Assumptions C14_gen_parse_min_sec.
+
+Theorem C14_gen_parsems : gen_parsems_stmt.
+Proof. exact pg_parsems_eq. Qed.
+Print Assumptions C14_gen_parsems.
+
+Theorem C14_gen_assign_hms : gen_assign_hms_stmt.
+Proof. exact pg_assign_hms_eq. Qed.
+Print Assumptions C14_gen_assign_hms.
+
+Theorem C14_gen_find_hms_idx : gen_find_hms_idx_stmt.
+Proof. exact pg_find_hms_idx_eq. Qed.
+Print Assumptions C14_gen_find_hms_idx.
+
+Theorem C14_gen_parse_hms : gen_parse_hms_stmt.
+Proof. exact pg_parse_hms_eq. Qed.
+Print Assumptions C14_gen_parse_hms.
+
+Theorem C14_gen_parse_numeric_token : gen_parse_numeric_stmt.
+Proof. exact pg_parse_numeric_eq. Qed.
+Print Assumptions C14_gen_parse_numeric_token.
